@@ -38,7 +38,7 @@ ASSUMPTIONS = ['fault model: process death and I/O errors at write boundaries, n
 FAULT_KINDS = ['crash-before', 'crash-after', 'crash-torn', 'eio', 'enospc', 'rename-fail']
 TEXTS = ['plain', 'two words', 'a=b', 'tab\there', 'new\nline', 'back\\slash', 'back\\nslash-n', 'café', '你好',
          'percent %s %(x)s', 'quote "x" \'y\'', '# hash ; semi', 'emoji \U0001F600', 'cr\rlf\r\n', 'trail\\', ' lead', 'trail ',
-         '', 'key: value', '[section]', 'x' * 300]
+         '', 'key: value', '[section]', 'x' * 300, 'first\n# second line\nthird', 'a\n; b', 'a\n\nb']
 STATES = ['running', 'finished', 'failed', 'initialising', 'suspended']
 
 
@@ -430,6 +430,8 @@ def char_class(value):
         return 'carriage-return'
     if value != value.strip() or value == '':
         return 'outer-blanks-or-empty'
+    if any(ln.lstrip().startswith(('#', ';')) for ln in value.split('\n')[1:]):
+        return 'comment-like-line-after-newline'
     if '\n' in value:
         return 'newline'
     if '%' in value:
